@@ -228,7 +228,7 @@ CHECKS['C17'] = {
     'explanation': 'units unq, lfp',
 }
 
-HOOK_COMMITS = ['7321ffc']
+HOOK_COMMITS = ['7321ffc', '9fef815']
 
 NOT_APPLICABLE = [
     {'property_id': 'C16', 'reason': 'needs the exact functional behaviour of both link-format scanners (which substrings they yield on the writer\'s exact output, escapes included) composed with the writer and Unquote for all documents: the scanners are verified only for C17 (termination, no panic, substrings in order) over assumed std-string contracts (trim*/find/split_at/pointer difference); a grammar-level induction parse(write(d)) == d over those assumed contracts was not attempted, and Kani exhausts memory on 3-byte inputs (measured, DESIGN.md Appendix B); no check is registered'},
